@@ -8,7 +8,7 @@ import Galaxy.Lemmas.C06Dec
 namespace Galaxy.Plugin.C06
 open Galaxy Galaxy.Plugin
 
-theorem minIP_spec : ∀ (l : List IP) (m : IP), minIP l = some m → m ∈ l ∧ ∀ x, x ∈ l → m ≤ x := by
+theorem minIP_spec : ∀ (l : List Nat) (m : Nat), minIP l = some m → m ∈ l ∧ ∀ x : Nat, x ∈ l → m ≤ x := by
   intro l
   induction l with
   | nil => intro m h; cases h
@@ -100,8 +100,7 @@ theorem bind_reuse (F : Facts) {t : State} {ns name : String} {pod : Pod} {uid :
     (hok : (bind F t ns name uid node ch).2.res = .ok) :
     ∃ ip, pickFirst ((ipsOfKey t (keyOf pod)).map some) ch.first = some ip ∧
       (bind F t ns name uid node ch).2.ips = [toHInfo t ip] := by
-  have hne : (byKeyAndRanges t (keyOf pod) []).isEmpty = false := by
-    rw [byKeyAndRanges_nil]
+  have hne : (List.map some (ipsOfKey t (keyOf pod))).isEmpty = false := by
     cases h : ipsOfKey t (keyOf pod) with
     | nil => exact absurd h hk
     | cons _ _ => rfl
@@ -109,12 +108,12 @@ theorem bind_reuse (F : Facts) {t : State} {ns name : String} {pod : Pod} {uid :
   | none =>
     have hi : bindInfos t pod ch = none := by
       unfold bindInfos
-      simp only [hr, List.isEmpty_nil, Bool.true_and, hne, Bool.not_false, if_true, byKeyAndRanges_nil, hp, Option.map_none]
+      simp only [hr, List.isEmpty_nil, Bool.true_and, byKeyAndRanges_nil, hne, Bool.not_false, if_true, hp, Option.map_none]
     rw [bind_bad F t ns name uid node ch pod hs.lister hs.wants hs.uid hi] at hok; cases hok
   | some ip0 =>
     have hi : bindInfos t pod ch = some [some ip0] := by
       unfold bindInfos
-      simp only [hr, List.isEmpty_nil, Bool.true_and, hne, Bool.not_false, if_true, byKeyAndRanges_nil, hp, Option.map_some]
+      simp only [hr, List.isEmpty_nil, Bool.true_and, byKeyAndRanges_nil, hne, Bool.not_false, if_true, hp, Option.map_some]
     have hmem : ip0 ∈ ipsOfKey t (keyOf pod) := by simpa using pickFirst_mem hp
     cases hu : (F.bindChecksUID && uidConflict F t pod [some ip0]) with
     | true => rw [bind_waiting F t ns name uid node ch pod hs.lister hs.wants hs.uid _ hi hu] at hok; cases hok
